@@ -80,7 +80,7 @@ func genRelatedRules(c *vs.Case, namespacedParent bool) ([]map[string]any, bool,
 
 // PropC15: the hook gets exactly what its customize rules select.
 func PropC15(c *vs.Case, f Factory, kind string) error {
-	scn := GenScn(c, GenOpts{Kind: kind, AllowFinalize: false})
+	scn := GenScn(c, GenOpts{Kind: kind, AllowFinalize: false, AllowRolling: kind == "composite"})
 	scn.Cfg.SSA = false
 	scn.Cfg.CustomizeHook = true
 	dying := c.Prob(1, 4)
